@@ -67,14 +67,14 @@ func genIndexSlice(s *sink, quick bool) {
 		maxAll = 2
 	}
 	if quick {
-		s.coqEvery["slice"], s.pyEvery["slice"] = 700, 30
-		s.coqEvery["slice:range"], s.pyEvery["slice:range"] = 500, 15
-		s.coqEvery["index"], s.pyEvery["index"] = 25, 3
+		s.coqEvery["slice"], s.pyEvery["slice"] = 1200, 45
+		s.coqEvery["slice:range"], s.pyEvery["slice:range"] = 800, 24
+		s.coqEvery["index"], s.pyEvery["index"] = 40, 5
 		s.coqEvery["setindex"], s.pyEvery["setindex"] = 4, 2
 	} else {
-		s.coqEvery["slice"], s.pyEvery["slice"] = 2100, 40
-		s.coqEvery["slice:range"], s.pyEvery["slice:range"] = 150, 10
-		s.coqEvery["index"], s.pyEvery["index"] = 40, 4
+		s.coqEvery["slice"], s.pyEvery["slice"] = 1100, 28
+		s.coqEvery["slice:range"], s.pyEvery["slice:range"] = 100, 8
+		s.coqEvery["index"], s.pyEvery["index"] = 20, 3
 		s.coqEvery["setindex"], s.pyEvery["setindex"] = 10, 2
 	}
 	for n := 0; n <= 8; n++ {
@@ -173,7 +173,7 @@ func genMethods(s *sink, quick bool) {
 	}
 	needles := []string{"", "a", "b", "aa", "ab", "ba", "bb", "c", "aba", "abc"}
 	// --- find / rfind / index / rindex / count / startswith / endswith with sub-ranges
-	rate("subrange", 1500, 25, 2500, 40)
+	rate("subrange", 2700, 40, 1250, 26)
 	for ri, rs := range allStrings("abc", 0, maxLen) {
 		recv := vStr(rs)
 		pool := idxPool(len(rs))
@@ -196,7 +196,7 @@ func genMethods(s *sink, quick bool) {
 		}
 	}
 	// argument handling of the same methods
-	rate("subrange:args", 3, 1, 6, 1)
+	rate("subrange:args", 5, 1, 3, 1)
 	for _, rs := range []string{"", "ab", "abcab"} {
 		recv := vStr(rs)
 		for _, m := range []string{"find", "rfind", "index", "rindex", "count", "startswith", "endswith"} {
@@ -219,7 +219,7 @@ func genMethods(s *sink, quick bool) {
 		}
 	}
 	// --- split / rsplit with a separator
-	rate("split", 200, 6, 150, 8)
+	rate("split", 360, 9, 75, 5)
 	seps := []V{vStr("a"), vStr("b"), vStr("ab"), vStr("aa"), vStr("aba"), vStr(""), vInt(1), vBytes("a")}
 	for _, rs := range allStrings("abc", 0, maxLen+1) {
 		recv := vStr(rs)
@@ -235,7 +235,7 @@ func genMethods(s *sink, quick bool) {
 		}
 	}
 	// --- split / rsplit on white space
-	rate("wsplit", 150, 6, 150, 8)
+	rate("wsplit", 270, 9, 75, 5)
 	for _, rs := range allStrings("a b", 0, maxLen+2) {
 		recv := vStr(rs)
 		counts := []V{vInt(-1), vInt(0), vInt(1), vInt(2), vInt(3), vInt(int64(len(rs) + 1)), vNone()}
@@ -261,7 +261,7 @@ func genMethods(s *sink, quick bool) {
 		}
 	}
 	// --- splitlines
-	rate("splitlines", 12, 3, 40, 4)
+	rate("splitlines", 21, 4, 20, 2)
 	for _, rs := range allStrings("a\nb", 0, maxLen+1) {
 		recv := vStr(rs)
 		call(s, recv, "string", "splitlines", "splitlines")
@@ -271,7 +271,7 @@ func genMethods(s *sink, quick bool) {
 		call(s, recv, "string", "splitlines", "splitlines", vBool(true), vBool(true))
 	}
 	// --- partition / rpartition / removeprefix / removesuffix
-	rate("partition", 120, 5, 100, 6)
+	rate("partition", 216, 8, 50, 4)
 	for _, rs := range allStrings("abc", 0, maxLen+1) {
 		recv := vStr(rs)
 		for _, m := range []string{"partition", "rpartition", "removeprefix", "removesuffix"} {
@@ -285,7 +285,7 @@ func genMethods(s *sink, quick bool) {
 		}
 	}
 	// --- strip family
-	rate("strip", 100, 5, 100, 6)
+	rate("strip", 180, 8, 50, 4)
 	for _, rs := range allStrings("a b", 0, maxLen+1) {
 		recv := vStr(rs)
 		for _, m := range []string{"strip", "lstrip", "rstrip"} {
@@ -306,7 +306,7 @@ func genMethods(s *sink, quick bool) {
 		}
 	}
 	// --- replace
-	rate("replace", 500, 12, 900, 20)
+	rate("replace", 900, 19, 450, 13)
 	for _, rs := range allStrings("abc", 0, maxLen) {
 		recv := vStr(rs)
 		for _, old := range needles {
@@ -325,7 +325,7 @@ func genMethods(s *sink, quick bool) {
 		call(s, recv, "string", "replace", "replace", vStr("a"), vStr("b"), vInt(1), vInt(1))
 	}
 	// --- join
-	rate("join", 6, 2, 10, 2)
+	rate("join", 10, 3, 5, 1)
 	iters := []V{vList(), vList(strV("a")...), vList(strV("a", "b")...), vList(strV("a", "", "b")...), vTuple(strV("x", "y")...), vTuple(),
 		vList(vStr("a"), vInt(1)), vList(vInt(1), vStr("a")), vList(vStr("a"), vNone(), vStr("b")), vStr("abc"), vInt(1), vNone(), vList(vBytes("a")),
 		vList(strV("", "")...), vTuple(strV("ab", "cd", "ef", "")...)}
@@ -338,7 +338,7 @@ func genMethods(s *sink, quick bool) {
 		call(s, recv, "string", "join", "join", vList(), vList())
 	}
 	// --- case mapping and predicates
-	rate("case", 80, 6, 250, 8)
+	rate("case", 144, 9, 125, 5)
 	caseM := []string{"upper", "lower", "capitalize", "title", "isalnum", "isalpha", "isdigit", "islower", "isupper", "isspace", "istitle"}
 	cl := 3
 	if !quick {
@@ -380,8 +380,8 @@ func genSeq(s *sink, quick bool) {
 	if quick {
 		maxLen = 3
 	}
-	rate("list.index", 500, 10, 700, 15)
-	rate("list", 30, 4, 60, 5)
+	rate("list.index", 900, 16, 350, 10)
+	rate("list", 54, 6, 30, 3)
 	for _, rs := range allStrings("\x00\x01\x02", 0, maxLen) {
 		recv := mkSeq("list", []byte(rs))
 		pool := idxPool(len(rs))
@@ -429,7 +429,7 @@ func genSeq(s *sink, quick bool) {
 		call(s, mixed, "list", "remove", "list", v)
 	}
 	// --- built-ins
-	rate("builtin", 14, 2, 20, 3)
+	rate("builtin", 25, 3, 10, 2)
 	truthy := []V{vInt(0), vInt(1), vStr(""), vStr("a"), vNone(), vList(), intList(0), vTuple(), vTuple(vInt(0)), vBytes(""), vBytes("a"), vInt(-1)}
 	var seqs []V
 	for _, n := range []int{0, 1, 2, 3} {
@@ -481,7 +481,7 @@ func genSeq(s *sink, quick bool) {
 		}
 	}
 	// --- concatenation and repetition
-	rate("bin", 30, 4, 80, 5)
+	rate("bin", 54, 6, 40, 3)
 	for _, rs := range allStrings("ab", 0, 3) {
 		for _, kind := range kinds {
 			x := mkSeq(kind, []byte(rs))
@@ -514,12 +514,12 @@ func genSeq(s *sink, quick bool) {
 // genRandom: random receivers up to length 40, every operation, arguments
 // mostly in range and sometimes far outside it.
 func genRandom(s *sink, quick bool) {
-	n := 200000
+	n := 400000
 	if quick {
 		n = 20000
-		s.coqEvery["random"], s.pyEvery["random"] = 100, 4
+		s.coqEvery["random"], s.pyEvery["random"] = 160, 6
 	} else {
-		s.coqEvery["random"], s.pyEvery["random"] = 100, 4
+		s.coqEvery["random"], s.pyEvery["random"] = 80, 4
 	}
 	r := s.r
 	idx := func(n int) V {
@@ -620,5 +620,73 @@ func genRandom(s *sink, quick bool) {
 				s.do(Case{Op: "builtin", Name: f, Args: []V{a}, Class: "random"})
 			}
 		}
+	}
+}
+
+// genPyOnly: operations named by the property that have no Coq model and no
+// Go copy of the specification here -- string.format, % interpolation, sorted,
+// min, max -- on the subset where spec.md follows Python 3 (no format specs,
+// no !r / %r whose string quoting differs).  CPython is the only oracle.
+func genPyOnly(s *sink, quick bool) {
+	vals := []V{vInt(0), vInt(-7), vInt(42), vStr(""), vStr("ab"), vNone(), vBool(true), intList(1, 2), vTuple(vInt(1), vInt(2)), vTuple()}
+	fmts := []string{"", "{}", "a{}b", "{}{}", "{0}{0}", "{1}{0}", "{0}-{1}-{0}", "{{}}", "{{{}}}", "{", "}", "{}{0}", "{0}{}", "{2}", "x{}y{}z{}", "{ }", "{-1}", "{a}", "{0.x}", "{:d}x"}
+	for _, f := range fmts {
+		recv := vStr(f)
+		call(s, recv, "string", "format", "pyonly:format")
+		for _, a := range vals {
+			call(s, recv, "string", "format", "pyonly:format", a)
+			for _, b := range vals[:5] {
+				call(s, recv, "string", "format", "pyonly:format", a, b)
+			}
+		}
+		call(s, recv, "string", "format", "pyonly:format", vInt(1), vInt(2), vInt(3))
+	}
+	pcts := []string{"", "%s", "a%sb", "%d", "%d%d", "%s %s", "%%", "%", "%%%s", "%d%%", "x%iy", "%x", "%X", "%o", "%c", "%z", "%s%", "%(a)s"}
+	for _, f := range pcts {
+		x := vStr(f)
+		for _, a := range vals {
+			s.do(Case{Op: "bin", Kind: "string", X: &x, Name: "%", Args: []V{a}, Class: "pyonly:%"})
+		}
+		for _, a := range []V{vTuple(vInt(7), vInt(8)), vTuple(vStr("a"), vInt(3)), vTuple(vInt(65)), vTuple(vStr("x")), vTuple(vInt(1), vInt(2), vInt(3)), vInt(122), vInt(-255), vInt(97), vStr("q")} {
+			s.do(Case{Op: "bin", Kind: "string", X: &x, Name: "%", Args: []V{a}, Class: "pyonly:%"})
+		}
+	}
+	n := 300
+	if !quick {
+		n = 3000
+	}
+	for i := 0; i < n; i++ {
+		ln := s.r.Intn(7)
+		var l []V
+		kind := s.r.Intn(4)
+		for j := 0; j < ln; j++ {
+			switch kind {
+			case 0:
+				l = append(l, vInt(int64(s.r.Intn(9))-4))
+			case 1:
+				l = append(l, vStr(randString(s.r, "abB", s.r.Intn(3))))
+			case 2:
+				l = append(l, vTuple(vInt(int64(s.r.Intn(3))), vStr(randString(s.r, "ab", s.r.Intn(2)))))
+			default:
+				if s.r.Intn(4) == 0 {
+					l = append(l, vStr("a"))
+				} else {
+					l = append(l, vInt(int64(s.r.Intn(5))))
+				}
+			}
+		}
+		x := V{T: []string{"list", "tuple"}[s.r.Intn(2)], L: l}
+		for _, f := range []string{"sorted", "min", "max"} {
+			s.do(Case{Op: "builtin", Name: f, Args: []V{x}, Class: "pyonly:" + f})
+		}
+		if ln >= 2 {
+			s.do(Case{Op: "builtin", Name: "min", Args: l, Class: "pyonly:min"})
+			s.do(Case{Op: "builtin", Name: "max", Args: l, Class: "pyonly:max"})
+		}
+	}
+	for _, f := range []string{"sorted", "min", "max"} {
+		s.do(Case{Op: "builtin", Name: f, Args: []V{}, Class: "pyonly:" + f})
+		s.do(Case{Op: "builtin", Name: f, Args: []V{vInt(1)}, Class: "pyonly:" + f})
+		s.do(Case{Op: "builtin", Name: f, Args: []V{vNone()}, Class: "pyonly:" + f})
 	}
 }
